@@ -150,6 +150,8 @@ def case_cli(run, i):
     bins, segs = _table(rng, bintest=(i % 2 == 1))
     if len(bins["start"]) < 2:
         return
+    if i % 3 == 0:
+        bins["gene"] = [g if k % 5 else f"AMPL#{k}" for k, g in enumerate(bins["gene"])]      # amplicon-style labels
     d = os.path.join(run.workdir, f"cli17_{run.shard}_{i}")
     os.makedirs(d, exist_ok=True)
     pb, ps, po = os.path.join(d, "S.cnr"), os.path.join(d, "S.cns"), os.path.join(d, "out.tsv")
